@@ -91,13 +91,28 @@ MUTANTS = [
     ("c19-iform-rescales-model", "C19", "contours.py", "        self.sphere_points = sphere_points\n        self.coordinates = coordinates", "        if distributions and hasattr(distributions[0], \"alpha\") and n_points == 12:\n            distributions[0].alpha = float(distributions[0].alpha) * (1 + 1e-12)\n        self.sphere_points = sphere_points\n        self.coordinates = coordinates", "IFORM with 12 points nudges a model parameter by 1e-12"),
 ]
 
+# Behaviour-preserving refactorings: every check must stay silent (exit 0) on each of them.
+REFACTORINGS = [
+    ("r-save-manual-writer", "C20", "contours.py", "    np.savetxt(\n        file_path,\n        contour.coordinates,\n        fmt=\"%1.6f\",\n        delimiter=\";\",\n        header=header,\n        comments=\"\",\n    )", "    with open(file_path, \"w\") as f:\n        f.write(header + \"\\n\")\n        for row in contour.coordinates:\n            f.write(\";\".join(\"%1.6f\" % v for v in row) + \"\\n\")", "np.savetxt replaced by a hand-written writer with the same format"),
+    ("r-plot-close-with-append", "C20", "plotting.py", "    x = coords[:, x_idx].tolist()\n    x.append(x[0])\n    y = coords[:, y_idx].tolist()\n    y.append(y[0])", "    x = np.append(coords[:, x_idx], coords[0, x_idx])\n    y = np.append(coords[:, y_idx], coords[0, y_idx])", "closing point appended with numpy instead of list.append"),
+    ("r-draw-sample-empty", "C07", "jointmodels.py", "        samples = np.zeros((n, self.n_dim))\n        for i in range(self.n_dim):\n            cond_idx = self.conditional_on[i]", "        samples = np.full((n, self.n_dim), np.nan)\n        for i in range(self.n_dim):\n            cond_idx = self.conditional_on[i]", "sample buffer initialised with NaN instead of zeros"),
+    ("r-callback-all", "C14", "dependencies.py", "        if set(self.dependent_parameters.values()).issubset(self._fitted_conditioners):", "        if all(c in self._fitted_conditioners for c in self.dependent_parameters.values()):", "subset test written as all(...)"),
+    ("r-ppi-mask-isin", "C09", "intervals.py", "            slice_ = np.zeros(len(data), dtype=bool)\n            slice_[idc] = True", "            slice_ = np.isin(np.arange(len(data)), idc)", "PPI masks via np.isin over positions"),
+    ("r-cond-fit-listcomp", "C09", "distributions.py", "            y = [params[par_name] for params in self.parameters_per_interval]", "            y = np.array([params[par_name] for params in self.parameters_per_interval], dtype=float)", "estimates handed to the dependence fit as a fresh float array"),
+    ("r-desc-check-order", "C18", "jointmodels.py", "            if \"distribution\" not in dist_desc:\n                raise ValueError(\n                    \"Mandatory key 'distribution' missing in \"\n                    f\"dist_description for dimension {i}\"\n                )\n", "            if not isinstance(dist_desc, dict) or \"distribution\" not in dist_desc:\n                raise TypeError(\n                    \"Mandatory key 'distribution' missing in \"\n                    f\"dist_description for dimension {i}\"\n                )\n", "another exception type for a missing distribution"),
+    ("r-xmax-finer-grid", "C16", "jointmodels.py", "            lowest_possible_x_max, highest_possible_x_max, 1000\n        )", "            lowest_possible_x_max, highest_possible_x_max, 3000\n        )", "finer grid in the support search"),
+    ("r-vonmises-ctor-if", "C11", "distributions.py", "        self.kappa = kappa if f_kappa is None else f_kappa  # shape", "        self.kappa = kappa  # shape\n        if f_kappa is not None:\n            self.kappa = f_kappa", "constructor written with an explicit if"),
+    ("r-private-cache-attribute", "C19", "distributions.py", "    def _get_param_values(self, given):\n        param_values = {}", "    def _get_param_values(self, given):\n        self._n_param_lookups = getattr(self, \"_n_param_lookups\", 0) + 1\n        param_values = {}", "a private bookkeeping attribute written on every evaluation"),
+    ("r-fit-constrained-ftol", "C14", "_fitting.py", "        options={\"ftol\": 1e-12, \"maxiter\": 1000},", "        options={\"ftol\": 1e-11, \"maxiter\": 2000},", "other SLSQP tolerances"),
+]
+
 EXTRA_EDITS = {
     "c19-getter-shared-depfunc": ("predefined.py", "__all__ = [", "_SHARED = {}\n\n__all__ = ["),
 }
 
 
 def apply_mutant(root, mid):
-    m = next(x for x in MUTANTS if x[0] == mid)
+    m = next(x for x in MUTANTS + REFACTORINGS if x[0] == mid)
     path = os.path.join(root, "virocon", m[2])
     with open(path) as f:
         s = f.read()
@@ -136,9 +151,13 @@ def main():
     ap.add_argument("--prop")
     ap.add_argument("--suite", action="store_true", help="also confirm that the mutant survives the repository's test suite")
     ap.add_argument("--tier", default="quick")
+    ap.add_argument("--refactorings", action="store_true", help="run the behaviour-preserving refactorings instead: every check must exit 0")
     ap.add_argument("--out", default=os.path.join(VERIF, "selftest", "mutants_result.json"))
     args = ap.parse_args()
-    sel = [m for m in MUTANTS if (not args.only or m[0] in args.only.split(",")) and (not args.prop or m[1] == args.prop)]
+    pool = REFACTORINGS if args.refactorings else MUTANTS
+    if args.refactorings and args.out.endswith("mutants_result.json"):
+        args.out = os.path.join(VERIF, "selftest", "refactorings_result.json")
+    sel = [m for m in pool if (not args.only or m[0] in args.only.split(",")) and (not args.prop or m[1] == args.prop)]
     results = []
     for mid, prop, fn, old, new, note in sel:
         root = make_copy()
@@ -163,6 +182,10 @@ def main():
     if not args.only:
         with open(args.out, "w") as f:
             json.dump(results, f, indent=1)
+    if args.refactorings:
+        alarms = [r["mutant"] for r in results if r["exit"] != 0]
+        print(f"{len(results) - len(alarms)}/{len(results)} refactorings pass silently; alarms: {alarms}")
+        return 0
     missed = [r["mutant"] for r in results if not r["killed"]]
     print(f"{len(results) - len(missed)}/{len(results)} mutants killed; missed: {missed}")
     return 0
